@@ -756,28 +756,45 @@ def run(ctx):
     def lap(what):
         ctx.cov.setdefault("phase_wall_s", {})[what] = round(time.time() - t0, 1)
 
-    # ---- 1. the bounded models -----------------------------------------------------------------------------------
-    tlc.check_model(ctx, "HtmlDoc", ctx.pick("HtmlDoc", "HtmlDoc_6"), timeout=3000,
-                    constants="all token strings <= %d over 14 tokens (p,/p,pre,/pre,br,text,span,span-open,span-close,script,/script,"
-                              "raw+mark,comment,comment+mark)" % ctx.pick(5, 6))
-    neg = tlc.run_tlc(tlc.SPECS / "HtmlDoc.tla", tlc.SPECS / "HtmlDoc_neg.cfg", ctx.scratch)
-    if neg.violated != "NoSpanEverAccepted":
-        raise MachineryFailure("vacuity control: no token string with a sentinel span is accepted by the acceptor (%s)" % neg.error)
-    tlc.check_model(ctx, "HtmlDocGen", "HtmlDocGen", timeout=3000,
-                    constants="EscMode=markupsafe LinkStyle=fixed: 820 payloads (<=3 of 9 special tokens) x {pre, attribute} + 3456 type-graph shapes over 6 namespaces incl. string-prefix-related names")
+    # ---- 1. the bounded models (independent TLC runs, started together) ----------------------------------------------------
+    S = tlc.SPECS
+    plan = [  # (key, module, cfg, workers)
+        ("sanity", "HtmlDoc", ctx.pick("HtmlDoc", "HtmlDoc_6"), max(2, NCPU // 2)),
+        ("vacuity", "HtmlDoc", "HtmlDoc_neg", 2),
+        ("refine", "HtmlDocGen", "HtmlDocGen", 2),
+        ("samepage", "HtmlDocGen", "HtmlDocGen_samepage", 2),
+        ("negtext", "HtmlDocGen", "HtmlDocGen_negtext", 1),
+        ("neglinks", "HtmlDocGen", "HtmlDocGen_neglinks", 1),
+        ("negprefix", "HtmlDocGen", "HtmlDocGen_negprefix", 1),
+        ("emit", "HtmlDocGen", ctx.pick("HtmlDocGen_emitq", "HtmlDocGen_emit"), 1),  # 2. spec -> code: stimuli + predictions
+    ]
+    with concurrent.futures.ThreadPoolExecutor(max_workers=len(plan)) as ex:
+        futs = {k: ex.submit(tlc.run_tlc, S / (m + ".tla"), S / (c + ".cfg"), ctx.scratch, workers=w, timeout=3000) for k, m, c, w in plan}
+        R = {k: f.result() for k, f in futs.items()}
+    consts = {
+        "sanity": "all token strings <= %d over 14 tokens (p,/p,pre,/pre,br,text,span,span-open,span-close,script,/script,raw+mark,comment,"
+                  "comment+mark)" % ctx.pick(5, 6),
+        "refine": "EscMode=markupsafe LinkStyle=fixed: 820 payloads (<=3 of 9 special tokens) x {pre, attribute} + 3456 type-graph shapes over "
+                  "6 namespaces incl. string-prefix-related names",
+        "samepage": "LinkStyle=samepage (bare #anchor for types listed on the page, decided on name components): 3456 shapes",
+        "emit": "emission of stimuli + predictions",
+    }
+    for k, m, c, w in plan:
+        if k in consts:
+            if not R[k].ok:
+                raise MachineryFailure("model %s/%s did not pass: %s %s\n%s" % (m, c, R[k].error, R[k].violated, R[k].out[-3000:]))
+            R[k].constants = consts[k]
+            ctx.add_model(R[k], c + ".cfg")
+    if R["vacuity"].violated != "NoSpanEverAccepted":
+        raise MachineryFailure("vacuity control: no token string with a sentinel span is accepted by the acceptor (%s)" % R["vacuity"].error)
     controls = {}
-    tlc.check_model(ctx, "HtmlDocGen", "HtmlDocGen_samepage", timeout=3000,
-                    constants="LinkStyle=samepage (bare #anchor for types listed on the page, decided on name components): 3456 shapes")
-    for cfg, inv in (("HtmlDocGen_negtext", "TextRefinesP"), ("HtmlDocGen_neglinks", "LinksRefineP"), ("HtmlDocGen_negprefix", "LinksRefineP")):
-        neg = tlc.run_tlc(tlc.SPECS / "HtmlDocGen.tla", tlc.SPECS / (cfg + ".cfg"), ctx.scratch)
-        if neg.violated != inv:
-            raise MachineryFailure("negative control %s: the variant of the unchanged tree was not refuted (%s %s)" % (cfg, neg.error, neg.violated))
-        controls[cfg] = "refuted by %s" % inv
+    for k, inv in (("negtext", "TextRefinesP"), ("neglinks", "LinksRefineP"), ("negprefix", "LinksRefineP")):
+        if R[k].violated != inv:
+            raise MachineryFailure("negative control %s: the defective variant was not refuted (%s %s)" % (k, R[k].error, R[k].violated))
+        controls["HtmlDocGen_" + k] = "refuted by %s" % inv
     ctx.cov["model_negative_controls"] = controls
-
-    lap("models")
-    # ---- 2. spec -> code: every payload and every shape TLC enumerates ----------------------------------------------
-    emitted = tlc.emit_cases(ctx, "HtmlDocGen", ctx.pick("HtmlDocGen_emitq", "HtmlDocGen_emit"), constants="emission of stimuli + predictions")
+    lap("models+emission")
+    emitted = R["emit"].json_lines()
     vocab = [r for r in emitted if r["kind"] == "vocab"]
     texts = [r for r in emitted if r["kind"] == "text"]
     shapes = [r for r in emitted if r["kind"] == "links"]
@@ -818,7 +835,6 @@ def run(ctx):
         public = rid % 10 == 3
         cases[rid] = {"universe": rand_universe(ctx.rng), "public": public}
         jobs.append((rid, cases[rid]["universe"], public, scratch))
-    lap("emission")
     results = run_jobs(ctx, jobs)
     lap("generation+tokenizing")
     errors = [r for r in results if r["error"]]
